@@ -180,6 +180,26 @@ def show(v, depth=0):
     return repr(v)
 
 
+STR_METHODS_RETURNING_STR = ('format', 'join', 'upper', 'lower', 'strip', 'lstrip', 'rstrip', 'replace', 'title', 'capitalize', 'ljust', 'rjust',
+                             'center', 'zfill', 'format_map', 'expandtabs', 'casefold', 'swapcase')
+
+
+def never_none(v):
+    """Values that are a str / bytes whatever their operands are: a method of a string literal that returns a string, an f-string,
+    `'literal' % x`, a concatenation with a string literal."""
+    while v[0] == 'res':
+        v = v[3]
+    if v[0] == 'mcall' and is_const(v[1]) and isinstance(v[1][1], (str, bytes)) and v[2] in STR_METHODS_RETURNING_STR:
+        return True
+    if v[0] == 'opaque' and isinstance(v[1], str) and v[1][:2] in ("f'", 'f"'):
+        return True
+    if v[0] == 'bin' and v[1] in ('%', '+') and is_const(v[2]) and isinstance(v[2][1], (str, bytes)):
+        return True
+    if v[0] == 'bin' and v[1] == '+' and is_const(v[3]) and isinstance(v[3][1], (str, bytes)):
+        return True
+    return False
+
+
 class PathState:
     def __init__(self):
         self.env = {}
@@ -210,8 +230,9 @@ class PathState:
 class Walker:
     """Enumerates paths through a statement list."""
 
-    def __init__(self, facts, loop_var=None, class_of=None, max_paths=40000, name_results=False, inline='default', opaque=()):
+    def __init__(self, facts, loop_var=None, class_of=None, max_paths=40000, name_results=False, inline='default', opaque=(), exits_end_paths=False):
         self.facts = facts
+        self.exits_end_paths = exits_end_paths   # `sys.exit(x)` / `parser.error(..)` as statements are `raise SystemExit(..)`
         self.name_results = name_results
         self.inline_mode = inline            # 'default': effectful + small pure module-level helpers ; 'all': every module-level
         self.opaque = set(opaque) | DEFAULT_OPAQUE   # function and local closure except the opaque ones
@@ -924,7 +945,7 @@ class Walker:
                     return r if op in ('==', 'is') else not r
                 if is_const(b):
                     f = st.facts.get(a)
-                    if a[0] in ('new', 'lambda', 'closure', 'list', 'tuple', 'dict', 'set') and b[1] is None:
+                    if (a[0] in ('new', 'lambda', 'closure', 'list', 'tuple', 'dict', 'set') or never_none(a)) and b[1] is None:
                         return op in ('!=', 'is not')
                     if f:
                         if f['eq'] is not None:
@@ -1376,6 +1397,12 @@ class Walker:
             out = []
             for s, e in self.expand_calls(node.value, st, done):
                 v = self.sym(e, s)
+                if self.exits_end_paths:
+                    exc = self.process_exit(v)
+                    if exc is not None:
+                        s.events.append(('raise', exc, node))
+                        self.finish(s, 'raise', node, done)
+                        continue
                 if not (v[0] in ('name',) and isinstance(e, ast.Name) and e.id.startswith('__inl')):
                     s.events.append(self.effect(v, node))
                 out.append(s)
@@ -1398,6 +1425,23 @@ class Walker:
                 return out
             return self._assign_stmt(node, st, done, node)
         return self._stmt_rest(node, st, done)
+
+    def process_exit(self, v):
+        """The SystemExit a call statement raises when it never returns: sys.exit(x) / exit(x) / quit(x) are `raise SystemExit(x)`;
+        <argparse.ArgumentParser>.error(msg) prints the message and exits with status 2, .exit(status=0, message=None) with
+        `status`.  None for any other call."""
+        if v[0] == 'call' and v[1] in ('sys.exit', 'exit', 'quit') and not v[3] and len(v[2]) <= 1:
+            return ('call', 'SystemExit', tuple(v[2]), ())
+        if v[0] == 'mcall' and v[2] in ('error', 'exit'):
+            recv = v[1]
+            while recv[0] == 'res':
+                recv = recv[3]
+            if recv[0] == 'call' and recv[1] in ('argparse.ArgumentParser', 'ArgumentParser'):
+                if v[2] == 'error':
+                    return ('call', 'SystemExit', (C(2),), ())
+                status = v[3][0] if v[3] else dict(v[4]).get('status', C(0))
+                return ('call', 'SystemExit', (status,), ())
+        return None
 
     def first_match_next(self, node, st):
         """`X = next((k for k, preds in TABLE.items() if all(pred(args) for pred in preds)), default)`: (target name, keys,
@@ -1653,11 +1697,14 @@ class Walker:
                 accs.setdefault(b.target.id, []).append(('extend', b))
         for s in live + [s for s in inner_done if s.end in ('continue', 'break')]:
             broke = s.end in ('continue', 'break')
+            left_by_break = s.end == 'break'
             s.end = None
             s.events.append(('endloop', it, node))
-            # values assigned before the loop and re-assigned inside are unknown afterwards
+            # values assigned before the loop and re-assigned inside are unknown afterwards - except on a path that leaves through
+            # `break`: what it assigned in that last iteration is what the code after the loop sees (everything assigned in earlier
+            # iterations is havoc already, from the loop entry)
             for n in names:
-                if n in st.env and s.env.get(n) != st.env.get(n):
+                if n in st.env and s.env.get(n) != st.env.get(n) and not left_by_break:
                     s.env[n] = ('havoc', n, tag)
             for an, uses in accs.items():
                 if len(uses) == 1 and not broke:
